@@ -595,6 +595,150 @@ theorem convert_errClass {reg : Registry} {Γ : VarEnv} :
   | tt => intro tgt err h; rw [convert_numLeaf rfl] at h; split at h <;> cases h; rfl
   | ff => intro tgt err h; rw [convert_numLeaf rfl] at h; split at h <;> cases h; rfl
 
+/-! ### an exponent that `float()` can evaluate exactly was not converted -/
+
+theorem evalClosed_cf_mul {f : Scale} {u : Container} {ex : E} {q : Rat} (hf : f ≠ [])
+    (h : evalClosed (.mul (.cf f u) ex) = some (some q)) : False := by
+  simp only [evalClosed, hf, if_false] at h
+  split at h
+  · rename_i h1 _; cases h1
+  · simp at h
+  · simp at h
+
+theorem maybeConv_closed {reg : Registry} {ex : E} {wc : Bool} {frm : Container} {tgt : Option Container}
+    {same : Bool} {r : CR} {q : Rat} (h : maybeConv reg ex wc frm tgt same = .ok r)
+    (hq : evalClosed r.e = some (some q)) : r.e = ex ∧ r.wc = wc := by
+  rcases maybeConv_spec h with ⟨_, rfl⟩ | ⟨t, _, _, rfl⟩ | ⟨t, f, _, _, hne, rfl⟩
+  · exact ⟨rfl, rfl⟩
+  · exact ⟨rfl, rfl⟩
+  · exact (evalClosed_cf_mul hne hq).elim
+
+theorem evalClosed_bin_mul {a b : E} {q : Rat} (h : evalClosed (.mul a b) = some (some q)) :
+    (∃ x, evalClosed a = some (some x)) ∧ (∃ y, evalClosed b = some (some y)) := by
+  simp only [evalClosed] at h
+  split at h <;> simp only [Option.some.injEq, reduceCtorEq] at h
+  rename_i x y hx hy; exact ⟨⟨x, hx⟩, ⟨y, hy⟩⟩
+
+theorem evalClosed_bin_add {a b : E} {q : Rat} (h : evalClosed (.add a b) = some (some q)) :
+    (∃ x, evalClosed a = some (some x)) ∧ (∃ y, evalClosed b = some (some y)) := by
+  simp only [evalClosed] at h
+  split at h <;> simp only [Option.some.injEq, reduceCtorEq] at h
+  rename_i x y hx hy; exact ⟨⟨x, hx⟩, ⟨y, hy⟩⟩
+
+theorem evalClosed_bin_pow {a b : E} {q : Rat} (h : evalClosed (.pow a b) = some (some q)) :
+    (∃ x, evalClosed a = some (some x)) ∧ (∃ y, evalClosed b = some (some y)) := by
+  simp only [evalClosed] at h
+  split at h <;> try (simp only [Option.some.injEq, reduceCtorEq] at h)
+  rename_i x y hx hy; exact ⟨⟨x, hx⟩, ⟨y, hy⟩⟩
+
+theorem evalClosed_abs {a : E} {q : Rat} (h : evalClosed (.abs a) = some (some q)) :
+    ∃ x, evalClosed a = some (some x) := by
+  simp only [evalClosed] at h
+  split at h
+  · rename_i x hx; exact ⟨x, hx⟩
+  · exact ⟨q, h⟩
+
+/-- a conversion inserts a factor Quantity whose value `float()`… the exact model does not track, so a result that
+    evaluates to an exactly known number contains no conversion -/
+theorem closed_not_converted {reg : Registry} {Γ : VarEnv} :
+    ∀ (ex : E) (tgt : Option Container) (r : CR) (q : Rat), convert reg Γ ex tgt = .ok r →
+      evalClosed r.e = some (some q) → r.wc = false := by
+  intro ex
+  induction ex with
+  | qty v u => intro tgt r q h hq; simp only [convert] at h; exact (maybeConv_closed h hq).2
+  | cf s u => intro tgt r q h hq; simp only [convert] at h; exact (maybeConv_closed h hq).2
+  | var i => intro tgt r q h hq; obtain ⟨vi, _, h'⟩ := convert_var_inv h; exact (maybeConv_closed h' hq).2
+  | deriv v t =>
+      intro tgt r q h hq; obtain ⟨vv, vt, _, _, h'⟩ := convert_deriv_inv h; exact (maybeConv_closed h' hq).2
+  | mul a b iha ihb =>
+      intro tgt r q h hq
+      obtain ⟨ra, rb, hra, hrb, h'⟩ := convert_mul_inv h
+      rw [rebuild2 (mk := E.mul) (convert_ident hra).2 (convert_ident hrb).2] at h'
+      obtain ⟨he, hw⟩ := maybeConv_closed h' hq
+      rw [he] at hq
+      obtain ⟨⟨x, hx⟩, ⟨y, hy⟩⟩ := evalClosed_bin_mul hq
+      rw [hw, iha _ ra x hra hx, ihb _ rb y hrb hy]; rfl
+  | pow b x ihb ihx =>
+      intro tgt r q h hq
+      obtain ⟨rx, q', rb, hrx, hq', hrb, h'⟩ := convert_pow_inv h
+      rw [rebuild2 (mk := fun x' b' => E.pow b' x') (convert_ident hrx).2 (convert_ident hrb).2] at h'
+      obtain ⟨he, hw⟩ := maybeConv_closed h' hq
+      rw [he] at hq
+      obtain ⟨⟨x0, hx⟩, ⟨y, hy⟩⟩ := evalClosed_bin_pow hq
+      rw [hw, ihx _ rx y hrx hy, ihb _ rb x0 hrb hx]; rfl
+  | add a b iha ihb =>
+      intro tgt r q h hq
+      obtain ⟨ra, rb, hra, hrb, rfl⟩ := convert_add_inv h
+      rw [rebuild2 (mk := E.add) (convert_ident hra).2 (convert_ident hrb).2] at hq
+      obtain ⟨⟨x, hx⟩, ⟨y, hy⟩⟩ := evalClosed_bin_add hq
+      simp only [iha _ ra x hra hx, ihb _ rb y hrb hy]; rfl
+  | abs a iha =>
+      intro tgt r q h hq
+      obtain ⟨ra, hra, rfl⟩ := convert_abs_inv h
+      rw [rebuild1 (mk := E.abs) (convert_ident hra).2] at hq
+      obtain ⟨x, hx⟩ := evalClosed_abs hq
+      exact iha _ ra x hra hx
+  | floor a _ =>
+      intro tgt r q h hq
+      obtain ⟨ra, hra, rfl⟩ := convert_floor_inv h
+      rw [rebuild1 (mk := E.floor) (convert_ident hra).2] at hq
+      simp only [evalClosed] at hq; split at hq <;> simp at hq
+  | ceil a _ =>
+      intro tgt r q h hq
+      obtain ⟨ra, hra, rfl⟩ := convert_ceil_inv h
+      rw [rebuild1 (mk := E.ceil) (convert_ident hra).2] at hq
+      simp only [evalClosed] at hq; split at hq <;> simp at hq
+  | fn1 f a _ =>
+      intro tgt r q h hq
+      obtain ⟨_, ra, hra, rfl⟩ := convert_fn1_inv h
+      rw [rebuild1 (mk := E.fn1 f) (convert_ident hra).2] at hq
+      simp only [evalClosed] at hq; split at hq <;> simp at hq
+  | rel rr a b _ _ =>
+      intro tgt r q h hq
+      obtain ⟨_, ra, rb, hra, hrb, rfl⟩ := convert_rel_inv h
+      rw [rebuild2 (mk := E.rel rr) (convert_ident hra).2 (convert_ident hrb).2] at hq
+      simp [evalClosed] at hq
+  | ite c t el _ _ _ =>
+      intro tgt r q h hq
+      obtain ⟨rt, rc, hrt, hrc, hcase⟩ := convert_ite_inv h
+      rcases hcase with ⟨_, rfl⟩ | ⟨_, re, hre, rfl⟩
+      · rw [rebuild2 (mk := fun t' c' => E.ite c' t' .undef) (convert_ident hrt).2 (convert_ident hrc).2] at hq
+        simp [evalClosed] at hq
+      · rw [rebuild3 (mk := fun t' c' e' => E.ite c' t' e') (convert_ident hrt).2 (convert_ident hrc).2
+          (convert_ident hre).2] at hq
+        simp [evalClosed] at hq
+  | not a _ =>
+      intro tgt r q h hq
+      obtain ⟨_, ra, hra, rfl⟩ := convert_not_inv h
+      rw [rebuild1 (mk := E.not) (convert_ident hra).2] at hq
+      simp [evalClosed] at hq
+  | fnN f a b _ _ =>
+      intro tgt r q h hq
+      obtain ⟨_, ra, rb, hra, hrb, rfl⟩ := convert_fnN_inv h
+      rw [rebuild2 (mk := E.fnN f) (convert_ident hra).2 (convert_ident hrb).2] at hq
+      simp [evalClosed] at hq
+  | and a b _ _ =>
+      intro tgt r q h hq
+      obtain ⟨_, ra, rb, hra, hrb, rfl⟩ := convert_and_inv h
+      rw [rebuild2 (mk := E.and) (convert_ident hra).2 (convert_ident hrb).2] at hq
+      simp [evalClosed] at hq
+  | or a b _ _ =>
+      intro tgt r q h hq
+      obtain ⟨_, ra, rb, hra, hrb, rfl⟩ := convert_or_inv h
+      rw [rebuild2 (mk := E.or) (convert_ident hra).2 (convert_ident hrb).2] at hq
+      simp [evalClosed] at hq
+  | undef => intro tgt r q h; cases h
+  | other n => intro tgt r q h; cases h
+  | int n => intro tgt r q h _; obtain ⟨_, rfl⟩ := convert_numLeaf_inv rfl h; rfl
+  | rat v => intro tgt r q h _; obtain ⟨_, rfl⟩ := convert_numLeaf_inv rfl h; rfl
+  | flt v => intro tgt r q h _; obtain ⟨_, rfl⟩ := convert_numLeaf_inv rfl h; rfl
+  | pi => intro tgt r q h _; obtain ⟨_, rfl⟩ := convert_numLeaf_inv rfl h; rfl
+  | e => intro tgt r q h _; obtain ⟨_, rfl⟩ := convert_numLeaf_inv rfl h; rfl
+  | oo => intro tgt r q h _; obtain ⟨_, rfl⟩ := convert_numLeaf_inv rfl h; rfl
+  | nan => intro tgt r q h _; obtain ⟨_, rfl⟩ := convert_numLeaf_inv rfl h; rfl
+  | tt => intro tgt r q h _; obtain ⟨_, rfl⟩ := convert_numLeaf_inv rfl h; rfl
+  | ff => intro tgt r q h _; obtain ⟨_, rfl⟩ := convert_numLeaf_inv rfl h; rfl
+
 /-! ### (b) the result passes strict unit inference (`traverse`) with a unit equivalent to the reported one -/
 
 section strict
